@@ -5,7 +5,7 @@
         events : (L t) ReadLocked hook event of thread t (it holds the lock)
                  (D t) ReadDone (seek + read_exact on the shared handle finished, guard still held)
                  (C t) ReadContended (try_lock failed)
-                 (E t) `read` returned in thread t
+                 (E t) `read` returned in thread t (without a preceding L / C: rejected by the range check)
      -> ok <results of thread 0> | <results of thread 1> ...        each result x<hex> | err
         unordered <same>      the log order cannot be replayed as is (a hook event was logged late); the
                               results are those of a sequential schedule
@@ -91,8 +91,19 @@ let replay (content : byte list) (reqs : (nat * nat) list list) (events : (strin
            (match conc_lock !s with
             | Some _ -> stp t; (match pc t with POpen -> () | _ -> raise (Reject "internal: contended try_lock succeeded"))
             | None -> pending := (t, ref false) :: !pending)
+         | "E" when t >= 0 && t < n && returned.(t) ->
+           (* no L / C event before the return: the read was rejected by the range check (no lock, no system call) *)
+           own_event t;
+           (match conc_result !s (nat_of_int t) with
+            | Some _ -> raise (Reject (Printf.sprintf "E %d: the thread has no read left" t))
+            | None -> ());
+           (match pc t with Idle -> () | _ -> raise (Reject (Printf.sprintf "E %d: thread is inside another read" t)));
+           stp t;
+           (match pc t with
+            | Idle -> ()
+            | _ -> raise (Reject (Printf.sprintf "E %d: a read in range returned without a ReadLocked / ReadContended event" t)))
          | "E" ->
-           if t < 0 || t >= n || returned.(t) then raise (Reject (Printf.sprintf "E %d: thread is not inside a read" t));
+           if t < 0 || t >= n then raise (Reject (Printf.sprintf "E %d: unknown thread" t));
            returned.(t) <- true;
            (match List.assoc_opt t !pending with
             | Some ended -> ended := true
